@@ -1,8 +1,14 @@
 /* unit locks, part CS: the REAL libxcm/tp/tls/ctx_store.c and item.c over the lock model and the OpenSSL/libc stubs of
  * env/locks_env.h (env/base.h is NOT included: see the note in env/locks_env.h) */
 #include "prelude.h"
+#include "util.h"
+/* ut_aprintf is variadic (DFCC loses the write set of a variadic callee, see prelude.h on snprintf); its call sites in the
+ * LOG_TLS_CTX_* macros pass (buf, sizeof(buf), format, ...): routed to the fixed-arity model xv_aprintf(buf, capacity) */
+void xv_aprintf(char *buf, size_t capacity);
+#define ut_aprintf(buf, n, ...) xv_aprintf((buf), (n))
 #include "ctx_store.c"
 #include "item.c"
+#include "env/libc_fmt.h"
 #define XV_LOCKS_CS
 #include "env/locks_env.h"
 #include "contracts/locks.h"
